@@ -2,5 +2,5 @@ import Updog.Generated
 namespace Updog.Facts
 open Updog.Generated
 /-- each refined group gets its own copy of the field list; Execute resolves the group-by list afresh -/
-theorem C02_facts : groupByCopiesFields = true ∧ groupByReset = true ∧ executeShape = true := by decide
+theorem C02_facts : libraryNoCodecHooks = true ∧ groupByCopiesFields = true ∧ groupByReset = true ∧ executeShape = true := by decide
 end Updog.Facts
